@@ -9,8 +9,13 @@ package main
 //            `verifharness rlimit k ...`), or in a directory without write permission as an
 //            unprivileged user, and classifies every file afterwards as old | new | other.
 //
-// input    = "mode=<strace|rlimit|rodir|longname>;limit=<k>;[link=1;][procs=<n>;]files=<name|content|name|content...>"
+// input    = "mode=<strace|rlimit|rodir|longname>;limit=<k>;[link=1;][procs=<n>;][cmd=infer;acct=<placeholder>;]files=<name|content|name|content...>"
 //            longname: one of the files has a 255-byte name (its temporary file cannot be created: ENAMETOOLONG)
+//            cmd=infer: the command is `knut infer --inplace -a <placeholder> -t <first file> <last file>` instead of
+//            `knut format <files>`: with two files the first is the training file (it is only read: it must stay
+//            as it is and no operation may touch it) and the second the target; with one file it is both.  The
+//            expected new contents of the target = stdout of the same command without --inplace, run beforehand
+//            on the same files (parses = that run exits 0).
 // observed = "exit=<e> left=<leftover files> finals=<name:class,...> ## <name^parses^new^ops|...>"
 //            new = the expected formatted bytes, computed in-process with syntax.ParseFile +
 //            syntax.FormatFile (not through the binary's write path); ops only for mode=strace.
@@ -112,6 +117,69 @@ func c18EncodeP(mode string, limit int, link bool, procs int, names, contents []
 	return fmt.Sprintf("mode=%s;limit=%d;%sfiles=%s", mode, limit, l, strings.Join(fs, "|"))
 }
 
+// c18EncodeInfer: an `infer --inplace` case; names[0] is the training file when there are two files
+func c18EncodeInfer(mode string, limit int, link bool, acct string, names, contents []string) string {
+	in := c18EncodeL(mode, limit, link, names, contents)
+	return strings.Replace(in, ";files=", ";cmd=infer;acct="+vesc(acct)+";files=", 1)
+}
+
+// c18InferFiles: placeholder account, training file and target file as the C15 generator makes them; the target
+// is made of `pieces` targets of that generator (0: one to four)
+func c18InferFiles(r *rng, pieces int) (ph, train, target string) {
+	g := &c15gen{r: r, ph: "Expenses:TBD"}
+	if r.chance(30) {
+		g.ph = pick(r, []string{"Unknown:X", "TBD", "Ausgaben:Ünbekannt"})
+	}
+	k := r.rangeInt(1, 5)
+	perm := append([]string(nil), c15Accounts...)
+	for j := len(perm) - 1; j > 0; j-- {
+		m := r.intn(j + 1)
+		perm[j], perm[m] = perm[m], perm[j]
+	}
+	g.pool = perm[:k]
+	train = g.training()
+	// several transactions, so that the rewritten target is long enough for faults in the middle
+	n := pieces
+	if n == 0 {
+		n = r.rangeInt(1, 4)
+	}
+	for i := 0; i < n; i++ {
+		t := g.target()
+		for try := 0; try < 8 && n > 1 && strings.HasSuffix(t, " open\n"); try++ {
+			t = g.target() // the unparseable target of the C15 generator only as a whole file
+		}
+		if i > 0 && !strings.HasSuffix(target, "\n\n") {
+			target += "\n"
+		}
+		target += t
+	}
+	return g.ph, train, target
+}
+
+// genC18Infer: n groups (training file, target file); per group one strace run, rlimit runs at 0, 1 and
+// `points` random offsets; every third group once more with the target reached through a symbolic link,
+// every fourth group with the target as its own training file
+func genC18Infer(out *caseWriter, seed uint64, n, points int) {
+	for g := 0; g < n; g++ {
+		r := newRng(seed, "C18infer", g)
+		ph, train, target := c18InferFiles(r, 0)
+		names, contents := []string{"training.knut", "target.knut"}, []string{train, target}
+		if g%4 == 3 {
+			names, contents = []string{"target.knut"}, []string{target}
+		}
+		link := g%3 == 2
+		maxLen := 2*len(target) + 100 // the rewritten target is aligned in columns: up to about twice as long
+		out.add(fmt.Sprintf("C18it-%d-%d", seed, g), "C18.trace", c18EncodeInfer("strace", 0, link, ph, names, contents))
+		for p := 0; p < points+2; p++ {
+			limit := p
+			if p >= 2 {
+				limit = r.intn(maxLen)
+			}
+			out.add(fmt.Sprintf("C18if-%d-%d-%d", seed, g, p), "C18.fault", c18EncodeInfer("rlimit", limit, link, ph, names, contents))
+		}
+	}
+}
+
 func c18Formatted(path string) (string, bool) {
 	f, err := syntax.ParseFile(path)
 	if err != nil {
@@ -134,8 +202,9 @@ func c18CanDropPrivileges() bool {
 	return cmd.Run() == nil
 }
 
-// genC18 <nfiles> <faultpoints>: per file group one strace case, then rlimit cases at fault
-// points spread over [0, max formatted size + 2], plus a few read-only-directory cases
+// genC18 <nfiles> <faultpoints> [<infer groups>]: per file group one strace case, then rlimit cases at fault
+// points spread over [0, max formatted size + 2], plus a few read-only-directory cases; then the
+// `infer --inplace` groups (genC18Infer; default nfiles groups with 2 + faultpoints/3 fault points each)
 func genC18(out *caseWriter, seed uint64, n int, args []string) error {
 	points := 12
 	if len(args) > 0 {
@@ -195,6 +264,12 @@ func genC18(out *caseWriter, seed uint64, n int, args []string) error {
 			}
 		}
 	}
+	// `knut infer --inplace` goes through the same atomic.WriteFile: as many groups as files
+	ninfer := n
+	if len(args) > 1 {
+		ninfer, _ = strconv.Atoi(args[1])
+	}
+	genC18Infer(out, seed, ninfer, points/3)
 	return nil
 }
 
@@ -206,6 +281,15 @@ func genC18Sweep(out *caseWriter, seed uint64, n int, _ []string) error {
 		names, contents := []string{"j0.knut"}, []string{c}
 		for limit := 0; limit <= len(c)+120; limit++ {
 			out.add(fmt.Sprintf("C18s-%d-%d-%d", seed, g, limit), "C18.fault", c18Encode("rlimit", limit, names, contents))
+		}
+		if g%8 == 0 {
+			// `infer --inplace`: every byte offset of the rewritten (short) target
+			ri := newRng(seed, "C18infersweep", g)
+			ph, train, target := c18InferFiles(ri, 1)
+			for limit := 0; limit <= 2*len(target)+100; limit++ {
+				out.add(fmt.Sprintf("C18is-%d-%d-%d", seed, g, limit), "C18.fault",
+					c18EncodeInfer("rlimit", limit, false, ph, []string{"training.knut", "target.knut"}, []string{train, target}))
+			}
 		}
 	}
 	return nil
@@ -247,11 +331,25 @@ func obsC18(in string) string {
 	}
 	news := make([]string, len(files))
 	parses := make([]bool, len(files))
-	for i, p := range paths {
-		news[i], parses[i] = c18Formatted(p)
-	}
 	self, _ := os.Executable()
 	bin := knutBin()
+	command := []string{"format"}
+	if kv["cmd"] == "infer" {
+		// the expected new contents of the target: what the command prints without --inplace
+		last := len(paths) - 1
+		tail := []string{"-a", vunesc(kv["acct"]), "-t", paths[0], paths[last]}
+		pre := runCmd(20*time.Second, nil, dir, append([]string{bin, "infer"}, tail...)...)
+		news[last], parses[last] = string(pre.stdout), pre.exit == "0"
+		if !parses[last] {
+			news[last] = ""
+		}
+		command = append([]string{"infer", "--inplace"}, tail...)
+	} else {
+		for i, p := range paths {
+			news[i], parses[i] = c18Formatted(p)
+		}
+		command = append(command, paths...)
+	}
 	var env []string
 	if kv["procs"] != "" {
 		env = []string{"GOMAXPROCS=" + kv["procs"]}
@@ -263,15 +361,15 @@ func obsC18(in string) string {
 		st := filepath.Join(dir, "strace.out")
 		argv := []string{"strace", "-f", "-s", "4194304", "-xx", "-e",
 			"trace=openat,write,fsync,close,rename,renameat,renameat2,unlink,unlinkat,chmod,fchmod,fchmodat",
-			"-o", st, bin, "format"}
-		res = runCmd(60*time.Second, env, dir, append(argv, paths...)...)
+			"-o", st, bin}
+		res = runCmd(60*time.Second, env, dir, append(argv, command...)...)
 		ops = c18MapStrace(st, dir, files)
 		os.Remove(st)
 	case "rlimit":
-		argv := []string{self, "rlimit", kv["limit"], bin, "format"}
-		res = runCmd(20*time.Second, env, dir, append(argv, paths...)...)
+		argv := []string{self, "rlimit", kv["limit"], bin}
+		res = runCmd(20*time.Second, env, dir, append(argv, command...)...)
 	case "longname":
-		res = runCmd(20*time.Second, env, dir, append([]string{bin, "format"}, paths...)...)
+		res = runCmd(20*time.Second, env, dir, append([]string{bin}, command...)...)
 	case "rodir":
 		// an unprivileged user, a directory it may read but not write, its own copy of the binary
 		bdir := workTemp("knutverif-c18bin-")
@@ -286,7 +384,7 @@ func obsC18(in string) string {
 			panic(err)
 		}
 		os.Chmod(dir, 0o555)
-		cmd := exec.Command(cp, append([]string{"format"}, paths...)...)
+		cmd := exec.Command(cp, command...)
 		cmd.SysProcAttr = &syscall.SysProcAttr{Credential: &syscall.Credential{Uid: 65534, Gid: 65534}}
 		cmd.Dir = "/"
 		var so, se bytes.Buffer
